@@ -264,6 +264,7 @@ int main(int argc, char **argv)
                     memset((void *)g_shm, 0, sizeof(IsoShm));
                     Iso iso;
                     iso.rep = &r;
+                    iso.tick = [&sh]() { if (sh.slot) sh.slot->beats = sh.slot->beats + 1; };
                     std::vector<Job> batch;
                     std::unordered_set<uint64_t> seen;
                     uint64_t idx = 0;
@@ -350,7 +351,7 @@ int main(int argc, char **argv)
                           push(bl.b, true, true);
                         }
                     flush();
-                    r.bounds["stall_detection_s"] = "10";
+                    r.bounds["stall_detection_s"] = "30";
                   });
   return 0;
 }
